@@ -457,6 +457,44 @@ def fault_fired(obs):
     return [e for e in obs["wlog"] if e.get("ev") in ("fault", "extkill")]
 
 
+def content_audit(sc, history):
+    """every returned transcript is ONE complete game of its own: four aligned lists, starting from the initial
+    position of the configured size, plies 0,1,2,..., at most ply_limit+1 of them, and nothing of an earlier
+    transcript of the same engine (same request or an earlier one) in front of it"""
+    name = sc["name"]
+    limit = int(sc.get("ply_limit", 6)) + 1
+    bad = []
+    for k, t in enumerate(history):
+        why = []
+        lens, seq = t.get("lens"), t.get("plies_seq")
+        if lens is None or seq is None:
+            why.append(f"could not be read ({t.get('error')})")
+        else:
+            if len(set(lens)) != 1:
+                why.append(f"positions/moves/probs/values have lengths {lens}")
+            if lens[0] < 1 or not t.get("first_initial"):
+                why.append("the first recorded position is not the initial position (ply 0, empty board)")
+            if seq != list(range(len(seq))):
+                why.append(f"recorded plies are {seq[:24]}{'...' if len(seq) > 24 else ''}, not 0,1,2,...")
+            if lens[0] > limit:
+                why.append(f"{lens[0]} plies recorded, ply_limit+1 = {limit}")
+            fps = t.get("fps") or []
+            for j in range(k):
+                e = history[j]
+                efps = e.get("fps") or []
+                if e.get("worker") == t.get("worker") and e.get("id") != t.get("id") and efps \
+                        and len(fps) > len(efps) and fps[:len(efps)] == efps:
+                    why.append(f"begins with all {len(efps)} positions of game id {e.get('id')} (transcript #{j} of this engine, same worker)")
+                    break
+        if why:
+            bad.append({"transcript": k, "id": t.get("id"), "worker": t.get("worker"), "lens": lens, "why": why})
+    if not bad:
+        return []
+    return [(f"carry-over-content:{name}", "returns exactly N COMPLETE transcripts, none carried over between games or requests",
+             f"{len(bad)} of {len(history)} returned transcripts are not one game of their own; lengths observed "
+             f"{[t.get('lens', [None])[0] if t.get('lens') else None for t in history]} (ply_limit+1 = {limit}); first: {bad[:3]}")]
+
+
 def oracle(obs):
     """list of (key, clause, detail) - violations of the property text by the observed run"""
     sc = obs["scenario"]
@@ -465,6 +503,7 @@ def oracle(obs):
     out = []
     seen = set()
     fired = fault_fired(obs)
+    history = []        # every transcript returned by this engine, in order, over all its requests
     for ri, r in enumerate(obs["requests"]):
         if r["outcome"] == "hung":
             if probe == "torn-put" and r.get("stuck_in_get"):
@@ -491,6 +530,7 @@ def oracle(obs):
                 out.append((f"wrong-count:{kind}", "returns exactly N transcripts", f"request {ri}: asked {r['n']}, got {len(ts)}"))
             if not all(t["complete"] for t in ts):
                 out.append((f"incomplete-transcript:{kind}", "returns complete transcripts", f"request {ri}: {ts}"))
+            history.extend(ts)
             if len(set(ids)) != len(ids) or None in ids:
                 out.append((f"duplicate-transcript:{kind}", "none lost or duplicated", f"request {ri}: ids {ids}"))
             if seen & set(ids):
@@ -507,6 +547,7 @@ def oracle(obs):
         elif r["outcome"] == "raised":
             if not fired:
                 out.append((f"spurious-raise:{kind}", "raises only when a worker failed", f"request {ri}: {r.get('error')} {r.get('message')}"))
+    out.extend(content_audit(sc, history))
     st = obs["stop"]
     if st.get("called"):
         if st["outcome"] == "hung":
@@ -534,7 +575,8 @@ def probe_reproduced(obs):
 
 def brief(obs):
     return {"scenario": obs["scenario"],
-            "requests": [{k: v for k, v in r.items() if k not in ("trace",)} | {"trace_len": len(r["trace"])} for r in obs.get("requests", [])],
+            "requests": [{k: (v if k != "transcripts" else [{a: b for a, b in t.items() if a != "fps"} for t in v])
+                          for k, v in r.items() if k not in ("trace",)} | {"trace_len": len(r["trace"])} for r in obs.get("requests", [])],
             "stop": {k: v for k, v in obs.get("stop", {}).items() if k != "trace"}, "exit_codes": obs.get("codes"),
             "evaluations_done": obs.get("evals"),
             "worker_events": [{k: v for k, v in e.items() if k != "t"} for e in obs.get("wlog", [])][:60],
